@@ -6,6 +6,10 @@ mod runner;
 mod gens;
 #[allow(dead_code)]
 mod oracle;
+#[allow(dead_code)]
+mod proc;
+#[allow(dead_code)]
+mod cli;
 mod props;
 
 use runner::Tier;
@@ -19,6 +23,28 @@ fn main() {
     let args: Vec<String> = std::env::args().skip(1).collect();
     if args.is_empty() {
         usage();
+    }
+    if args[0] == "oracle" {
+        // line protocol for cross-checking the reference models against external references
+        // (tools/xcheck_oracles.py): one candidate per line (JSON string) -> verdict
+        use std::io::BufRead;
+        let which = args.get(1).map(|s| s.as_str()).unwrap_or("");
+        for line in std::io::stdin().lock().lines() {
+            let line = line.unwrap();
+            let s: String = serde_json::from_str(&line).unwrap();
+            match which {
+                "pep440" => match oracle::pep440::parse(&s) {
+                    Some(p) => println!("ok\t{}", oracle::pep440::normal_form(&p)),
+                    None => println!("reject"),
+                },
+                "semver" => match oracle::semver::parse(&s) {
+                    Some(p) => println!("ok\t{}", oracle::semver::print(&p)),
+                    None => println!("reject"),
+                },
+                _ => usage(),
+            }
+        }
+        return;
     }
     let id = args[0].clone();
     let mut tier = match std::env::var("VERIF_TIER").as_deref() {
@@ -50,6 +76,11 @@ fn main() {
         i += 1;
     }
     let root = std::path::PathBuf::from(std::env::var("VERIF_ROOT").unwrap_or_else(|_| "/verif".into()));
+    // The harness owns the time zone of the in-process layer: everything zerv prints must be
+    // UTC (C14/C17), so the whole L1 layer runs 14 hours away from UTC; any use of local time
+    // then disagrees with the UTC oracles.  (L2 runs set TZ per case.)
+    // SAFETY: single-threaded at this point.
+    unsafe { std::env::set_var("TZ", std::env::var("VERIF_TZ").unwrap_or_else(|_| "<+14>-14".into())) };
     runner::install_panic_hook();
     // global watchdog: a hang is "inconclusive" (exit 2), never a violation
     let limit = std::env::var("VERIF_WATCHDOG_S").ok().and_then(|s| s.parse().ok()).unwrap_or(tier.pick(1500u64, 6 * 3600));
